@@ -209,11 +209,18 @@ func descriptorJSON(ctx context.Context, src string) (string, error) {
 	for _, i := range fdp.PublicDependency {
 		public[fdp.Dependency[i]] = true
 	}
+	weak := map[string]bool{}
+	for _, i := range fdp.WeakDependency {
+		weak[fdp.Dependency[i]] = true
+	}
 	sort.Strings(fdp.Dependency)
 	fdp.PublicDependency, fdp.WeakDependency = nil, nil
 	for i, d := range fdp.Dependency {
 		if public[d] {
 			fdp.PublicDependency = append(fdp.PublicDependency, int32(i))
+		}
+		if weak[d] {
+			fdp.WeakDependency = append(fdp.WeakDependency, int32(i))
 		}
 	}
 	resolver, err := protoencoding.NewResolver(bufimage.ImageToFileDescriptorProtos(image)...)
